@@ -53,7 +53,7 @@ def pixel_sets():
 
 def axes(tier, seed):
     return dict(amp=AMPS, sx_sy=SHAPES, theta=[t + core.seed_shift(seed, 8, 5.0) for t in THETAS], centre=CENTRES,
-                grid=GRID, pixel_sets=list(pixel_sets()), weights=["none", "errs=0.01", "B=Bmatrix(Cmatrix)", "errs+B", "C"],
+                grid=GRID, pixel_sets=list(pixel_sets()), weights=["none", "errs=0.01", "B=Bmatrix(Cmatrix)", "errs+B", "C", "errs=0.37 + C"],
                 n_components=[1, 2] if tier == "quick" else [1, 2, 3, 4])
 
 
@@ -109,10 +109,12 @@ def weights(variant, x, y):
     C = None
     if variant in ("errs", "errs+B"):
         errs = 0.01
-    if variant in ("B", "errs+B", "C"):
+    if variant == "errs+C":
+        errs = 0.37
+    if variant in ("B", "errs+B", "C", "errs+C"):
         Cm = fitting.Cmatrix(x, y, 1.6, 1.1, 25.0)
         B = fitting.Bmatrix(Cm)
-        if variant == "C":
+        if variant in ("C", "errs+C"):
             C = Cm
     return errs, B, C
 
@@ -221,7 +223,7 @@ def ev_covmodel(case, ctx):
             ctx.outcome("cov:ok_C_illconditioned_B_not_judged")
 
 
-VARIANTS = ["none", "errs", "B", "errs+B", "C"]
+VARIANTS = ["none", "errs", "B", "errs+B", "C", "errs+C"]
 
 
 def ev_n1(case, ctx):
